@@ -611,3 +611,78 @@ def quotient_case(rng) -> Dict[str, Any]:
         addl = ["zz"]
     return {"family": fam, "shape": shape, "style": style, "top": top, "divisor": divisor, "partner": partner,
             "additional_inputs": addl, "simplify": rng.random() < 0.6, "order": rorder(rng)}
+
+
+# --------------------------------------------------------------------------------------
+# merge pairs (C08) and overlapping guarantees (C15)
+
+
+def merge_case(rng) -> Dict[str, Any]:
+    style = pick_style(rng)
+    fam = rng.choice(["shared_in", "shared_out", "disjoint", "same_iface", "shared_both", "clash"])
+    if fam == "shared_in":
+        i1, o1, i2, o2 = ["s1", "i1"], ["o1"], ["s1", "j1"], ["p1"]
+    elif fam == "shared_out":
+        i1, o1, i2, o2 = ["i1"], ["o1", "q1"], ["j1"], ["o1"]
+    elif fam == "disjoint":
+        i1, o1, i2, o2 = ["i1"], ["o1"], ["j1"], ["p1"]
+    elif fam == "same_iface":
+        i1, o1, i2, o2 = ["i1", "i2"], ["o1"], ["i1", "i2"], ["o1"]
+    elif fam == "shared_both":
+        i1, o1, i2, o2 = ["s1"], ["o1", "o2"], ["s1", "j1"], ["o1"]
+    else:  # an input of one is an output of the other: the union is not a valid interface
+        i1, o1, i2, o2 = ["i1"], ["m1"], ["m1"], ["p1"]
+    c1 = rcontract(rng, i1, o1, style)
+    c2 = rcontract(rng, i2, o2, style)
+    r = rng.random()
+    if r < 0.3:
+        # duplicated / redundant terms across the two operands
+        for key in ("a", "g"):
+            common = [t for t in c1[key] if set(t["c"]) <= set(c2["in"] + (c2["out"] if key == "g" else []))]
+            if common:
+                t = rng.choice(common)
+                c2[key].append(rng.choice([dict(c=dict(t["c"]), k=t["k"]), scale(t, 2.0), weaken(rng, t, style)]))
+    dup_noise(rng, c1)
+    dup_noise(rng, c2)
+    return {"family": fam, "style": style, "c1": c1, "c2": c2}
+
+
+def overlap_compose_case(rng) -> Dict[str, Any]:
+    """Composable pair whose guarantees overlap on an interface-level variable."""
+    kind = rng.choice(["shared_in", "cascade_keep", "mixed", "shared_in", "indep_input_term"])
+    style = rng.choice(["int", "int", "dyadic"])
+    keep: List[str] = []
+    if kind == "shared_in":
+        _, i1, o1, i2, o2 = wiring(rng, "shared_in")
+        common = ["s1"]
+    elif kind == "mixed":
+        _, i1, o1, i2, o2 = wiring(rng, "mixed")
+        common = ["s1"]
+    elif kind == "cascade_keep":
+        i1, o1, i2, o2 = ["i1"], ["m1"], ["m1"], ["p1"]
+        keep = ["m1"]
+        common = ["m1"]
+    else:
+        i1, o1, i2, o2 = ["s1", "i1"], ["o1"], ["s1"], ["p1"]
+        common = ["s1"]
+    c1 = rcontract(rng, i1, o1, style)
+    c2 = rcontract(rng, i2, o2, style)
+    v = common[0]
+    base = T({v: coef(rng, style)}, const(rng, style, 0, 6))
+    if rng.random() < 0.3 and kind != "cascade_keep":
+        # an interface-level term over the shared variable and one more input of the first contract
+        base = T({v: coef(rng, style)}, const(rng, style, 0, 6))
+    variant = rng.choice(["identical", "scaled", "weaker", "stronger", "identical"])
+    t1 = dict(c=dict(base["c"]), k=base["k"])
+    if variant == "identical":
+        t2 = dict(c=dict(base["c"]), k=base["k"])
+    elif variant == "scaled":
+        t2 = scale(base, float(rng.choice([2, 3, 0.5])))
+    elif variant == "weaker":
+        t2 = dict(c=dict(base["c"]), k=base["k"] + 1.0)
+    else:
+        t2 = dict(c=dict(base["c"]), k=base["k"] - 1.0)
+    c1["g"].insert(rng.randint(0, len(c1["g"])), t1)
+    c2["g"].insert(rng.randint(0, len(c2["g"])), t2)
+    return {"wiring": "overlap:" + kind, "variant": variant, "style": style, "c1": c1, "c2": c2, "keep": keep,
+            "simplify": rng.random() < 0.6, "order": rorder(rng)}
